@@ -356,6 +356,25 @@ func runC06(tb ev.TB, p c06Prog) ev.Result {
 			tb.Fatalf("after the merge the log has head %s (log id %q), which is not one of its entries", world.Short(h.GetHash().String()), h.GetLogID())
 		}
 	}
+	// and after an unbounded merge the heads are the entries nothing in the log points to (entries of the source
+	// that were skipped - another log id - neither become heads nor supersede any)
+	if jerr == nil && size < 0 {
+		named := world.Set{}
+		for _, e := range dst.GetEntries().Slice() {
+			for _, nx := range e.GetNext() {
+				named.Add(nx.String())
+			}
+		}
+		wantHeads := world.Set{}
+		for _, e := range dst.GetEntries().Slice() {
+			if !named.Has(e.GetHash().String()) {
+				wantHeads.Add(e.GetHash().String())
+			}
+		}
+		if got := world.SetOf(world.Hashes(dst.Heads())); !got.Equal(wantHeads) {
+			tb.Fatalf("after the merge the heads are %v, the entries nothing in the log points to are %v", world.Shorts(got.Sorted()), world.Shorts(wantHeads.Sorted()))
+		}
+	}
 	// never: a foreign log id, an unverifiable or denied entry inside the log
 	for _, e := range dst.GetEntries().Slice() {
 		h := e.GetHash().String()
